@@ -35,6 +35,12 @@ CLAIMED = {
             "Theorem C15_holds; the real retention routine is compared with the closed-form CDF (after fix: it *is* the closed form).",
             "scipy erf / interp1d trusted; fallback tables taken as data with range check.",
             "DESIGN §6 C15"),
+    "C11": ("Lean 4 proof (normalisation Σ A_i·Pk_i = 1 hence ∫ = N0 for any number of segments, continuity at every break, ext modes, "
+            "np.select first-match semantics, from_M0, binned = integrals, telescoping of aligned bins, straddle witness) + correspondence",
+            "Theorem C11_partial over all segment lists; the documented promise about unaligned bins is refuted by binned_straddle_witness "
+            "(known finding C11-straddle). Tie: constants, evaluation, binned evaluation and total mass of the real PowerLawIMF vs the model.",
+            "Mtot is scipy.quad in the code (exact first moment in the model, 1e-4 budget); constants re-associated in the model (ℝ-equal).",
+            "DESIGN §6 C11"),
 }
 
 NOT_YET = "check not built yet in this session (planned: see DESIGN §6); not claimed until its quick check is silent on the clean tree"
